@@ -19,6 +19,15 @@ TABLE = {
  'C13': (MC, 'TLC graph walk (metadata actions of spec/Array.tla)',
          'All metadata macro-edges (update, setitem, empty update, unserialisable update, pop, pop-with-default, popitem, del) from all reachable metadata states over 2 keys x 2 values are executed with rotating concrete value kinds (ints, floats incl. NaN/inf, non-ASCII and control-character text, None/bool, nested, NumPy scalars and arrays, bytes); file existence/content, every read accessor on live and fresh handles, outcome classes are compared with the spec; TLC checks Meta_Model.',
          'Trusted: as C03; JSON round trip of model values computed with the standard json module and an independent NumPy conversion.', '7 C13'),
+ 'C09': (MC, 'TLC graph walk with real faults (spec/Array.tla, Faults)',
+         'TLC checks FailedAppendExact/WellFormedArray/Model_Array on the step-level model with a fault plan chosen at every append (iterable raises, wrong shape, wrong rank, unconvertible item at every position; write stops after k rows + b bytes). Every fault macro-edge is executed on the real code: crafted iterables, and kernel-enforced short writes (RLIMIT_FSIZE with SIGXFSZ ignored, 64 KiB rows so that only the data file hits the limit); afterwards disk, live handle and fresh handle must equal the spec target (original + completed chunks).',
+         'Trusted: kernel RLIMIT_FSIZE semantics; write faults at offset 0 of an empty file cannot be isolated from the JSON/README writes and are counted as skipped.', '7 C09'),
+ 'C17': (MC, 'TLC CrashSafe + settrace crash points and torn variants opened by the real code',
+         'TLC checks CrashSafe with a crash enabled after every file-system step (incl. inside data writes and the recovery path, torn JSON/README/metadata). Each scenario (macro-edge) runs on the real code under sys.settrace; every distinct on-disk state between two executed lines in darr/ plus synthesized torn variants of every changed file are opened with the real darr: the result must raise or be in the legit set the spec computed for that call; the observed sequence of disk states must be a subsequence of the spec step chain (binds the write order).',
+         'Crash = process death (written bytes persist); line granularity of sys.settrace; legit sets come from spec pc.legit / pc.legitmeta.', '7 C17'),
+ 'C18': (MC, 'TLC-evaluated verdict table (spec/OpenCheck.tla) replayed on materialised directories',
+         'TLC enumerates every single-field corruption class x file-length offset x array kind and evaluates the spec verdict (Raises/Opens/Any); each row is materialised with several concrete representatives (rotating over the 13 types and both byte orders) and opened with Array(), Array(r+), darr.open(), RaggedArray(); rejected rows are also passed to delete/truncate by path with a byte snapshot around the call.',
+         'Only "Raises" verdicts are enforced; ambiguities listed in DESIGN section 9 are verdict Any.', '7 C18'),
 }
 NA = {}
 def main():
